@@ -17,12 +17,17 @@ F_Unary  == {[fam |-> "unary", op |-> op, lu |-> i, ldt |-> a, ls |-> s] : op \i
             \cup {[fam |-> "unary", op |-> "invert", lu |-> IdxOf("1"), ldt |-> "b1", ls |-> s] : s \in {"s0", "s2", "s22"}}
 F_To     == {[fam |-> "to", lu |-> i, ru |-> j, ldt |-> "f8", ls |-> "s2"] : i \in 1..NPool, j \in 1..NPool}
             \cup {[fam |-> "to", lu |-> i, ru |-> j, ldt |-> a, ls |-> s] : i \in SmallPool \cup {IdxOf("km"), IdxOf("pc"), IdxOf("au")}, j \in SmallPool \cup {IdxOf("km"), IdxOf("pc"), IdxOf("au")}, a \in Dts, s \in {"s0", "s22"}}
+            \* single-precision data between units whose own CGS values do not fit in single precision (the ratio does)
+            \cup {[fam |-> "to", lu |-> i, ru |-> j, ldt |-> "f4", ls |-> s] : i \in {IdxOf("pc3"), IdxOf("au3")}, j \in {IdxOf("pc3"), IdxOf("au3")}, s \in {"s2", "s22"}}
 \* chains a -> b -> c against a -> c inside one dimension family
 F_Chain  == {[fam |-> "chain", lu |-> i, mu |-> j, ru |-> k, ldt |-> "f8", ls |-> "s2"] : i \in 1..NPool, j \in 1..NPool, k \in 1..NPool}
 NpArgKinds == {"arr", "nd1", "float"}
 F_Np     == {[fam |-> "np", f |-> f, lu |-> i, ru |-> i, rk |-> "none", ldt |-> a, ls |-> "s22"] : f \in Keep1 \cup Pred1 \cup Trans1, i \in SmallPool \cup {IdxOf("m2"), IdxOf("cm3")}, a \in Dts \cup {"u4"}}
             \cup {[fam |-> "np", f |-> f, lu |-> i, ru |-> j, rk |-> rk, ldt |-> a, ls |-> "s2"] :
                     f \in Keep2 \cup Pred2 \cup Trans2 \cup KeepSeq, i \in SmallPool, j \in SmallPool \cup {IdxOf("km")}, rk \in NpArgKinds, a \in {"f8", "f4", "i8"}}
+            \* a pint Quantity handed straight to the numpy function: the same quantity as the Array it would wrap
+            \cup {[fam |-> "np", f |-> f, lu |-> i, ru |-> j, rk |-> "qty", ldt |-> a, ls |-> "s2"] :
+                    f \in Keep2 \cup Pred2 \cup Trans2, i \in SmallPool, j \in SmallPool \cup {IdxOf("km")}, a \in {"f8", "i8"}}
             \cup {[fam |-> "np", f |-> f, lu |-> i, ru |-> j, rk |-> "out", ldt |-> "f8", ls |-> "s2"] : f \in {"add", "multiply", "sqrt", "maximum", "less"}, i \in SmallPool, j \in {IdxOf("s")}}
 \* short histories on ONE Array object: a unit-transforming function, an in-place change of the Array's unit, and a
 \* unit-transforming function again - the second result follows the unit the Array has THEN (nothing about an Array's
